@@ -160,6 +160,14 @@ def run(chk: Check) -> None:
         _range_lookup(chk, f, key, by_addr)
 
     # R13.4 ----------------------------------------------------------------
+    # section scope goes through byte_intervals_on: the lazy section index must be sound
+    from .c12 import _capture, _get, _ownership
+    lt = repo.cls("LazyIntervalTree")
+    sub = chk.sub()
+    _ownership(sub, lt)
+    _capture(sub, lt)
+    _get(sub, lt)
+    chk.adopt(sub, None, "R13.4")
     sec = repo.cls("Section")
     delegation(chk, sec, "symbolic_expressions_at",
                [("attr", ("self",), "byte_intervals"),
@@ -212,6 +220,27 @@ def _range_lookup(chk: Check, f, key: str, by_addr: bool) -> None:
             rng_names.add(n.targets[0].id)
     loops = [n for n in walk_no_nested(f.node) if isinstance(n, ast.For) and isinstance(n.iter, ast.Call)
              and isinstance(n.iter.func, ast.Attribute) and n.iter.func.attr == "irange"]
+    # every yielded triple comes from an order-preserving walk of the sorted store
+    ordered = True
+    for lp0 in walk_no_nested(f.node):
+        if isinstance(lp0, ast.For) and any(isinstance(y, ast.Yield) for y in ast.walk(lp0)):
+            it = lp0.iter
+            src_ok = False
+            if isinstance(it, ast.Call) and isinstance(it.func, ast.Attribute) and \
+                    it.func.attr in ("irange", "items", "keys", "irange_key", "islice"):
+                base = attr_path(it.func.value)
+                src_ok = bool(base) and base[-1] in ("_data", "symbolic_expressions", "_symbolic_expressions")
+            elif isinstance(it, ast.Call) and attr_path(it.func) == ("sorted",):
+                src_ok = True
+            elif attr_path(it) and attr_path(it)[-1] in ("_data", "symbolic_expressions", "_symbolic_expressions"):
+                src_ok = True
+            ordered = ordered and src_ok
+            if not src_ok:
+                chk.ob("R13.3", key + ":increasing-offset-order", False, f.loc(lp0),
+                       "%s yields from %s, which does not walk the sorted store in key order: results "
+                       "must come in increasing offset order" % (key, unparse(it)[:50]), 2)
+    if ordered:
+        chk.ob("R13.3", key + ":increasing-offset-order", True, f.loc(), "yields walk the sorted store", 2)
     if len(loops) != 1:
         # a plain scan over the mapping is equally acceptable
         scan = any(isinstance(n, ast.For) and "symbolic_expressions" in unparse(n.iter)
